@@ -128,6 +128,31 @@ def judge(events, module="Trace", cfg="Trace", shards=8, timeout=1200, scratch=N
             shutil.rmtree(scratch, ignore_errors=True)
 
 
+def emit(module, cfg, out_path, env=None, workers=8, timeout=900, scratch=None):
+    """Run an MC config with CGV_EMIT=1: every generated transition is printed by the spec as one JSON line
+    (PrintT(ToJson(..))); the decoded lines are written to out_path.  Returns TLC statistics + line count."""
+    e = {"CGV_EMIT": "1"}
+    e.update(env or {})
+    r = run_tlc(module, cfg, workers=workers, timeout=timeout, env=e, scratch=scratch)
+    n = bad = 0
+    with open(out_path, "w") as f:
+        for line in r["out"].splitlines():
+            if line.startswith('"{'):
+                try:
+                    txt = json.loads(line)
+                    json.loads(txt)
+                except Exception:
+                    bad += 1
+                    continue
+                f.write(txt + "\n")
+                n += 1
+    r["lines"], r["bad_lines"] = n, bad
+    r["out"] = "\n".join(l for l in r["out"].splitlines() if not l.startswith('"{'))
+    if not r["ok"] and "Model checking completed" not in r["out"]:
+        raise MachineryError("emission %s/%s failed:\n%s" % (module, cfg, r["out"][-3000:]))
+    return r
+
+
 def sany(module):
     args = ["java", "-DTLA-Library=" + SPEC, "-cp", JAR, "tla2sany.SANY", os.path.join(SPEC, module + ".tla")]
     out, rc, _ = _java(args, SPEC, None, 120)
